@@ -384,6 +384,7 @@ fn cmd_replay_beh(a: &Args) {
 						ctx.c17(&canon, &mut viols)
 					}
 					"c08" => ctx.c08_insertions(&o, &mut viols),
+					"c17ins" => ctx.c17_insertions(&o, &mut viols),
 					"debug" => {
 						let dir = std::path::PathBuf::from(format!("{}/dump-{}-{}-{}", sink.replay_dir, std::process::id(), idx, vi));
 						ctx.debug_dump(&dir, &mut viols)
